@@ -1,0 +1,59 @@
+//go:build verif
+// +build verif
+
+package rsec16
+
+import "github.com/akalin/gopar/gf2p16"
+
+// Hooks for the runtime monitors under /verif. Compiled only with
+// -tags verif.
+
+// VerifWorkerEvent describes one event in the life of an
+// applyMatrix worker.
+type VerifWorkerEvent struct {
+	// Kind is "start" or "end" (goroutine boundaries, Worker is
+	// the worker index and Workers the number spawned), or
+	// "slice" (entry of applyMatrixSlice with its ranges).
+	Kind                                 string
+	Worker, Workers                      int
+	OutStart, OutEnd, DataStart, DataEnd int
+	DataLength                           int
+}
+
+// VerifWorkerHook, if non-nil, is called for every worker event. It
+// is called concurrently from the worker goroutines, and may block or
+// yield to perturb the schedule. It must be set before any coder
+// runs.
+var VerifWorkerHook func(VerifWorkerEvent)
+
+func verifWorkerEvent(kind string, worker, workers, dataLength int) {
+	if h := VerifWorkerHook; h != nil {
+		h(VerifWorkerEvent{Kind: kind, Worker: worker, Workers: workers, DataLength: dataLength})
+	}
+}
+
+func verifApplyEvent(outStart, outEnd, dataStart, dataEnd, dataLength int) {
+	if h := VerifWorkerHook; h != nil {
+		h(VerifWorkerEvent{Kind: "slice", OutStart: outStart, OutEnd: outEnd, DataStart: dataStart, DataEnd: dataEnd, DataLength: dataLength})
+	}
+}
+
+// VerifApplyMatrixParallelData exposes applyMatrixParallelData.
+func VerifApplyMatrixParallelData(m gf2p16.Matrix, in, out [][]byte, numGoroutines int) {
+	applyMatrixParallelData(m, in, out, numGoroutines)
+}
+
+// VerifApplyMatrixParallelOut exposes applyMatrixParallelOut.
+func VerifApplyMatrixParallelOut(m gf2p16.Matrix, in, out [][]byte, numGoroutines int) {
+	applyMatrixParallelOut(m, in, out, numGoroutines)
+}
+
+// VerifApplyMatrixSingle exposes applyMatrixSingle.
+func VerifApplyMatrixSingle(m gf2p16.Matrix, in, out [][]byte) {
+	applyMatrixSingle(m, in, out)
+}
+
+// VerifParityMatrix returns the coder's parity matrix.
+func (c Coder) VerifParityMatrix() gf2p16.Matrix {
+	return c.parityMatrix
+}
